@@ -46,7 +46,7 @@ def run_scenario(p, n, inv, prior, amounts, how):
     if r.status_int not in (200, 201):
         return None
     gen = 0
-    if prior:
+    if prior or how == 'reshape':
         loose = dict(total=MAXI, reserved=0, min_unit=1, max_unit=MAXI,
                      step_size=1, allocation_ratio=1.0)
         r = p.req('PUT', '/resource_providers/%s/inventories' % rp,
@@ -55,6 +55,7 @@ def run_scenario(p, n, inv, prior, amounts, how):
         if r.status_int != 200:
             return None
         gen = r.json['resource_provider_generation']
+    if prior:
         r = p.req('PUT', '/allocations/%s' % _u(n * 100 + 2), {
             'allocations': {rp: {'resources': {'VCPU': prior}}},
             'project_id': 'p', 'user_id': 'u', 'consumer_generation': None,
@@ -62,6 +63,28 @@ def run_scenario(p, n, inv, prior, amounts, how):
         if r.status_int != 204:
             return None
         gen += 1
+    if how == 'reshape':
+        # the tighter inventory and the new allocation arrive in ONE request:
+        # the allocation must be checked against the inventory it will live
+        # under
+        allocs = {}
+        if prior:
+            allocs[_u(n * 100 + 2)] = {
+                'allocations': {rp: {'resources': {'VCPU': prior}}},
+                'project_id': 'p', 'user_id': 'u', 'consumer_generation': 1,
+                'consumer_type': 'INSTANCE'}
+        allocs[_u(n * 100 + 10)] = {
+            'allocations': {rp: {'resources': {'VCPU': amounts[0]}}},
+            'project_id': 'p', 'user_id': 'u', 'consumer_generation': None,
+            'consumer_type': 'INSTANCE'}
+        r = p.req('POST', '/reshaper', {
+            'inventories': {rp: {'resource_provider_generation': gen,
+                                 'inventories': {'VCPU': inv}}},
+            'allocations': allocs}, version=VER, roles='admin,service')
+        if r.status_int != 204:
+            return {'accepted': False, 'status': r.status_int}
+        v = clause_violations(p, rp, inv, amounts)
+        return {'accepted': True, 'violations': v}
     r = p.req('PUT', '/resource_providers/%s/inventories' % rp,
               {'resource_provider_generation': gen,
                'inventories': {'VCPU': inv}}, version=VER)
@@ -189,9 +212,12 @@ def grid_search(model=None, budget=400):
                 half += (-half) % st
                 pairs = [(half, half), (mx, mx), (room, mn), (mn, room)]
                 pairs = [(a, b) for a, b in pairs if a > 0 and b > 0]
+                resh = [a for a in (room, room + 1, mx + 1, mn - 1, st + 1)
+                        if 0 < a <= MAXI]
                 for how, amts in [('put', (a,)) for a in singles] + \
                         [('post', (a,)) for a in singles[:4]] + \
-                        [('post', ab) for ab in pairs]:
+                        [('post', ab) for ab in pairs] + \
+                        [('reshape', (a,)) for a in resh]:
                     if tried >= budget:
                         return {'reproduced': False, 'tried': tried}
                     n += 1
